@@ -137,7 +137,13 @@ pub fn run_c18(bytes: &[u8], tier: Tier) -> Outcome {
         // force the merge operator: map type from the next byte (BTreeMap or OrdMap)
         let mut forged = vec![if rest.first().map_or(false, |b| b % 2 == 1) { 255u8 } else { 0u8 }, 255u8];
         forged.extend_from_slice(rest.get(1..).unwrap_or(&[]));
+        // (decoder 1 selected the operator by a forged byte, which picked incr_partition_mapi instead
+        // of incr_merge on OrdMap: the OrdMap half of these cases was vacuous for C18)
+        crate::maps::keep_observed(crate::choice::dv() >= 2);
+        crate::maps::force_merge(crate::choice::dv() >= 2);
         let (fails, trace, _nt, mut classes) = crate::maps::run_diff_case(&forged, tier);
+        crate::maps::keep_observed(false);
+        crate::maps::force_merge(false);
         let both = trace.iter().any(|l| l.starts_with("right: ")) && trace.iter().any(|l| l.starts_with("insert") || l.starts_with("fill") || l.starts_with("change"));
         classes.push(("merge_order_cases", 1));
         let failures = fails.into_iter().filter(|f| f.prop == "C18" || f.clause == "panic").map(|f| Failure { prop: "C18", ..f }).collect();
